@@ -449,6 +449,8 @@ func c01Scenario(c *mon.Ctx, r *rand.Rand, lg *world.Log, key, evil *world.Key, 
 		c.Sample("honest-lookup", 2, map[string]any{"case": caseID, "lines": lines, "remote_reads": remotes, "cache_hits": cacheHits})
 	}
 	// the honest client keeps working, and so does a new process over what was persisted
+	// (from here on the honest server is up to date with everything the store may know, see runFaulted)
+	hw.Remote = hw.HonestRemote(len(lg.Mods))
 	if _, err := hc.Lookup(lg.Mods[other].Path, lg.Mods[other].Vers); err != nil {
 		c.Violation("honest-lookup-failed", caseID, map[string]any{"stage": "second lookup on same client", "rec": other, "err": err.Error()})
 	}
@@ -476,9 +478,12 @@ func c01Scenario(c *mon.Ctx, r *rand.Rand, lg *world.Log, key, evil *world.Key, 
 		if c01Drain(c, caseID, w, info) {
 			out = "violation"
 		}
-		// a new process over whatever was persisted, with the faults gone
+		// a new process over whatever was persisted, with the faults gone and an up-to-date honest
+		// server (in the warm-larger mode the store may by now hold the larger head it found in its own
+		// cache; a server that lags behind that head cannot serve the tiles needed to compare with it,
+		// which is not a failure "caused by an honest server and honest cache")
 		w.Faults = map[string]world.Fault{}
-		w.Remote = w.HonestRemote(n)
+		w.Remote = w.HonestRemote(len(lg.Mods))
 		cl3 := c01NewClient(w, 3, h)
 		var res3 c01Result
 		c.Guard(caseID, func() any { return info }, func() { res3.lines, res3.err = cl3.Lookup(mod.Path, vers) })
